@@ -69,23 +69,40 @@ theorem C03_then_value (f : Fn) (p : Term) (env vs : List Int) (h : denote p env
   simp only [denote, h, applyThen]; cases f.apply vs <;> rfl
 
 /-- upstream error / stopped pass unchanged through then, let_value, drop_value, continues_on,
-    split, ensure_started, split_tuple -/
-theorem C03_error_passes (f : Fn) (sc : Sch) (i : Nat) (p b : Term) (env : List Int) (e : Int)
+    split, ensure_started, split_tuple, bulk, require_started, drop_operation_state -/
+theorem C03_error_passes (f : Fn) (sc : Sch) (i n : Nat) (p b : Term) (env : List Int) (e : Int)
     (h : denote p env = .error e) :
     denote (.thn f p) env = .error e ∧ denote (.lv f p b) env = .error e ∧
     denote (.dv p) env = .error e ∧ denote (.co sc p) env = .error e ∧
     denote (.sp p) env = .error e ∧ denote (.es p) env = .error e ∧
-    denote (.st i p) env = .error e := by
-  simp [denote, h, applyThen, applySch]
+    denote (.st i p) env = .error e ∧ denote (.bulk n f p) env = .error e ∧
+    denote (.rs p) env = .error e ∧ denote (.dos p) env = .error e := by
+  simp [denote, h, applyThen, applySch, applyBulk]
 
-theorem C03_stopped_passes (f : Fn) (sc : Sch) (i : Nat) (p b : Term) (env : List Int)
+theorem C03_stopped_passes (f : Fn) (sc : Sch) (i n : Nat) (p b : Term) (env : List Int)
     (h : denote p env = .stopped) :
     denote (.thn f p) env = .stopped ∧ denote (.lv f p b) env = .stopped ∧
     denote (.le f p b) env = .stopped ∧
     denote (.dv p) env = .stopped ∧ denote (.co sc p) env = .stopped ∧
     denote (.sp p) env = .stopped ∧ denote (.es p) env = .stopped ∧
-    denote (.st i p) env = .stopped := by
-  simp [denote, h, applyThen, applySch]
+    denote (.st i p) env = .stopped ∧ denote (.bulk n f p) env = .stopped ∧
+    denote (.rs p) env = .stopped ∧ denote (.dos p) env = .stopped := by
+  simp [denote, h, applyThen, applySch, applyBulk]
+
+/-- values pass require_started, drop_operation_state, split, ensure_started and a scheduler that
+    completes with a value (inline or the pool) unchanged; `bulk(n, f)` calls `f` for
+    `i = 0 … n-1` in order and delivers the values it left, or the first exception. -/
+theorem C03_value_passes (n : Nat) (f : Fn) (p : Term) (env vs : List Int)
+    (h : denote p env = .value vs) :
+    denote (.rs p) env = .value vs ∧ denote (.dos p) env = .value vs ∧
+    denote (.sp p) env = .value vs ∧ denote (.es p) env = .value vs ∧
+    denote (.co .v p) env = .value vs ∧ denote (.co .p p) env = .value vs ∧
+    denote (.bulk 0 f p) env = .value vs ∧
+    denote (.bulk (n + 1) f p) env = (match f.apply (vs ++ [0]) with
+      | .ok r => applyBulkFrom 1 n f r
+      | .error e => .error e) := by
+  simp only [denote, h, applySch, applyBulk, bulkRun, applyBulkFrom, true_and]
+  cases f.apply (vs ++ [0]) <;> simp
 
 /-- `when_all`: all values → the values in predecessor order. -/
 theorem C03_when_all_values (vss : List (List Int)) :
